@@ -173,3 +173,82 @@ Theorem C07_validator_exact_fsm : forall (HO : hops), hash_ok HO ->
              (chunk_range_list 0 (sp_blocks (blen HO data) bs)), Ok tt)).
 Proof. exact c07_validator_exact_fsm. Qed.
 Print Assumptions C07_validator_exact_fsm.
+
+(* ---- end-to-end download (Proofs/E2EDownload*.v) ---- *)
+From BaoV Require Import Model.IO Spec.RangeSpec Spec.EncSpec Spec.HashAssm
+  Proofs.HistOb Proofs.HistEnc Proofs.HistInv Proofs.HistStep Proofs.FinalStore
+  Proofs.E2EDownload Proofs.E2EDownloadStep Proofs.E2EDownloadConv.
+
+(* the leaves of the honest encoding of a query carry exactly the selected chunks (the guards wf_ranges q,
+   bs <= 10 and c < nchunks are not needed by the proof: outside the blob both sides are false, and the empty
+   blob has the one chunk 0 of length 0) *)
+Theorem C07_delivered_honest : forall (HO : hops) (data : bytes HO) (bs : N) (q : ranges) (c : N),
+  wf_ranges q = true -> (blen HO data <= 2 ^ 63)%N -> (bs <= 10)%N -> (c < nchunks (blen HO data))%N ->
+  delivered HO (honest HO data bs q) c = sel q (blen HO data) c.
+Proof. exact delivered_honest. Qed.
+Print Assumptions C07_delivered_honest.
+
+(* a fault-free step (sync or fsm decoder) fed the whole honest encoding of its query, followed by any bytes,
+   adds exactly the selection of the query to the delivered set *)
+Theorem C07_full_step : forall (HO : hops), hash_ok HO ->
+  forall (data : bytes HO) (bs : N), (blen HO data <= 2 ^ 63)%N -> (bs <= 10)%N ->
+  forall q : ranges, wf_ranges q = true ->
+  forall (D : N -> bool) (st : bytes HO * outboard HO) (rest : bytes HO) (fsm : bool),
+  Inv HO data bs D st ->
+  Inv HO data bs (fun c => D c || sel q (blen HO data) c)
+      (hist_step HO st (mkOp HO q (flat HO (honest HO data bs q) ++ rest) no_faults fsm)).
+Proof. exact full_step. Qed.
+Print Assumptions C07_full_step.
+
+(* from the all-zero initial state of any kind, fault-free steps (any interleaving of the sync and fsm decoders)
+   each fed the honest encoding of its query followed by any bytes: if the queries select every chunk of the blob,
+   the final state is the blob and the blob's created store of that kind *)
+Theorem C07_download_converges : forall (HO : hops), hash_ok HO ->
+  forall (data : bytes HO) (bs : N), (blen HO data <= 2 ^ 63)%N -> (bs <= 10)%N ->
+  forall k, hist_kind k ->
+  forall ops : list (op HO),
+  Forall (fun o => wf_ranges (op_q HO o) = true /\ op_sf HO o = no_faults /\
+                   exists rest, op_enc HO o = flat HO (honest HO data bs (op_q HO o)) ++ rest) ops ->
+  (forall c, (c < nchunks (blen HO data))%N -> exists o, In o ops /\ sel (op_q HO o) (blen HO data) c = true) ->
+  fst (fold_left (hist_step HO) ops (init_target HO data, init_ob HO data bs k)) = data /\
+  created_store HO data bs (snd (fold_left (hist_step HO) ops (init_target HO data, init_ob HO data bs k))) /\
+  ob_k (snd (fold_left (hist_step HO) ops (init_target HO data, init_ob HO data bs k))) = k.
+Proof. exact download_converges. Qed.
+Print Assumptions C07_download_converges.
+
+(* the single query ChunkRanges::all() = [0] suffices *)
+Theorem C07_download_all : forall (HO : hops), hash_ok HO ->
+  forall (data : bytes HO) (bs : N), (blen HO data <= 2 ^ 63)%N -> (bs <= 10)%N ->
+  forall k, hist_kind k ->
+  forall (rest : bytes HO) (fsm : bool),
+  fst (hist_step HO (init_target HO data, init_ob HO data bs k)
+         (mkOp HO [0%N] (flat HO (honest HO data bs [0%N]) ++ rest) no_faults fsm)) = data /\
+  created_store HO data bs
+    (snd (hist_step HO (init_target HO data, init_ob HO data bs k)
+            (mkOp HO [0%N] (flat HO (honest HO data bs [0%N]) ++ rest) no_faults fsm))) /\
+  ob_k (snd (hist_step HO (init_target HO data, init_ob HO data bs k)
+               (mkOp HO [0%N] (flat HO (honest HO data bs [0%N]) ++ rest) no_faults fsm))) = k.
+Proof. exact download_all. Qed.
+Print Assumptions C07_download_all.
+
+(* the hypotheses of C07_download_converges are satisfiable: a blob of 3 chunks over the term-algebra hash, groups
+   of 2 chunks, the queries [0, 1) (sync) and [1, oo) (fsm, one trailing byte), neither of which covers the blob *)
+Theorem C07_download_nonvacuous :
+  exists (HO : hops) (data : bytes HO) (bs : N) (k : ob_kind) (ops : list (op HO)),
+    hash_ok HO /\ (blen HO data <= 2 ^ 63)%N /\ (bs <= 10)%N /\ hist_kind k /\
+    nchunks (blen HO data) = 3%N /\ length ops = 2%nat /\
+    Forall (fun o => wf_ranges (op_q HO o) = true /\ op_sf HO o = no_faults /\
+                     exists rest, op_enc HO o = flat HO (honest HO data bs (op_q HO o)) ++ rest) ops /\
+    (forall c, (c < nchunks (blen HO data))%N -> exists o, In o ops /\ sel (op_q HO o) (blen HO data) c = true) /\
+    (forall o, In o ops -> exists c, (c < nchunks (blen HO data))%N /\ sel (op_q HO o) (blen HO data) c = false).
+Proof. exact download_nonvacuous. Qed.
+Print Assumptions C07_download_nonvacuous.
+
+(* no step of a history (any stream, any sink faults, either decoder) changes the kind of the store *)
+Theorem C07_hist_step_kind : forall (HO : hops), hash_ok HO ->
+  forall (data : bytes HO) (bs : N), (blen HO data <= 2 ^ 63)%N -> (bs <= 10)%N ->
+  forall (D : N -> bool) (st : bytes HO * outboard HO) (o : op HO),
+  wf_ranges (op_q HO o) = true -> Inv HO data bs D st ->
+  ob_k (snd (hist_step HO st o)) = ob_k (snd st).
+Proof. exact hist_step_kind. Qed.
+Print Assumptions C07_hist_step_kind.
